@@ -93,15 +93,100 @@ pub fn sname(s: &str) -> StoredName {
 }
 
 pub fn abs_name(rel: &RelName) -> StoredName {
+    spelled_name(rel, fix_opts().owners)
+}
+
+// ---- optional fixture options (C08 parts S and N). Defaults = the behaviour
+// every other user of this fixture sees: lower-case owners, apex stored as
+// "z.", SOA TTL = TTL. The options are per thread and only in force inside
+// `with_fix_opts`.
+
+/// How the labels of an absolute name are spelled (ASCII case), by position
+/// from the left; the apex label is the last one.
+#[derive(Clone, Copy, Debug, PartialEq, Eq, PartialOrd, Ord, Hash, Default)]
+pub enum Spelling {
+    #[default]
+    Lower,
+    /// the apex labels upper-cased
+    ApexUpper,
+    /// the labels below the apex upper-cased
+    RelUpper,
+    AllUpper,
+    /// 0x20-style mix: labels 0, 2, 4.. from the left upper-cased
+    AltEven,
+    /// labels 1, 3, .. from the left upper-cased
+    AltOdd,
+}
+
+pub const SPELLINGS: [Spelling; 5] = [Spelling::ApexUpper, Spelling::RelUpper, Spelling::AllUpper, Spelling::AltEven, Spelling::AltOdd];
+
+#[derive(Clone, Copy, Debug, PartialEq, Eq)]
+pub struct FixOpts {
+    /// spelling of every owner name the fixture hands to the library
+    /// (`abs_name`, `record_of`, `node_for`, builders)
+    pub owners: Spelling,
+    /// the zone is created with the apex name "Z." instead of "z."
+    pub zone_apex_upper: bool,
+    /// TTL of SOA RRsets / records made by `rrset_of` / `record_of`
+    pub soa_ttl: u32,
+}
+
+impl Default for FixOpts {
+    fn default() -> Self {
+        FixOpts { owners: Spelling::Lower, zone_apex_upper: false, soa_ttl: TTL }
+    }
+}
+
+std::thread_local! {
+    static FIX_OPTS: std::cell::Cell<FixOpts> = const { std::cell::Cell::new(FixOpts { owners: Spelling::Lower, zone_apex_upper: false, soa_ttl: TTL }) };
+}
+
+pub fn fix_opts() -> FixOpts {
+    FIX_OPTS.with(|o| o.get())
+}
+
+/// Run `f` (on this thread) with the given fixture options; restored afterwards, also on unwind.
+pub fn with_fix_opts<T>(o: FixOpts, f: impl FnOnce() -> T) -> T {
+    struct Restore(FixOpts);
+    impl Drop for Restore {
+        fn drop(&mut self) {
+            FIX_OPTS.with(|c| c.set(self.0));
+        }
+    }
+    let _r = Restore(FIX_OPTS.with(|c| c.replace(o)));
+    f()
+}
+
+/// Is label `i` (from the left) of an absolute name of `n` labels (apex last) upper-cased?
+pub fn spelled_upper(sp: Spelling, i: usize, n: usize) -> bool {
+    match sp {
+        Spelling::Lower => false,
+        Spelling::ApexUpper => i + 1 == n,
+        Spelling::RelUpper => i + 1 < n,
+        Spelling::AllUpper => true,
+        Spelling::AltEven => i % 2 == 0,
+        Spelling::AltOdd => i % 2 == 1,
+    }
+}
+
+pub fn spelled_name(rel: &RelName, sp: Spelling) -> StoredName {
+    let n = rel.len() + 1;
     let mut s = String::new();
-    for l in rel.iter().rev() {
-        s.push_str(l);
+    for (i, l) in rel.iter().rev().map(|l| l.as_str()).chain(std::iter::once(APEX)).enumerate() {
+        if spelled_upper(sp, i, n) {
+            s.push_str(&l.to_ascii_uppercase());
+        } else {
+            s.push_str(l);
+        }
         s.push('.');
     }
-    s.push_str(APEX);
-    s.push('.');
     // '*' is fine in from_str
     sname(&s)
+}
+
+/// The apex name the fixture creates zones with.
+pub fn zone_apex() -> StoredName {
+    sname(if fix_opts().zone_apex_upper { "Z." } else { "z." })
 }
 
 pub fn rel(s: &str) -> RelName {
@@ -417,8 +502,16 @@ pub fn content_as_walk(c: &Content) -> BTreeSet<(Vec<u8>, u16, Vec<u8>)> {
 
 // -------------------------------------------------------------- builders
 
+fn ttl_of(rd: &Rd) -> u32 {
+    if matches!(rd, Rd::Soa(_)) {
+        fix_opts().soa_ttl
+    } else {
+        TTL
+    }
+}
+
 pub fn rrset_of(rds: &[Rd]) -> SharedRrset {
-    let mut rs = Rrset::new(rds[0].rtype(), Ttl::from_secs(TTL));
+    let mut rs = Rrset::new(rds[0].rtype(), Ttl::from_secs(ttl_of(&rds[0])));
     for r in rds {
         rs.push_data(r.data());
     }
@@ -426,7 +519,7 @@ pub fn rrset_of(rds: &[Rd]) -> SharedRrset {
 }
 
 pub fn record_of(name: &RelName, rd: &Rd) -> StoredRecord {
-    Record::new(abs_name(name), Class::IN, Ttl::from_secs(TTL), rd.data())
+    Record::new(abs_name(name), Class::IN, Ttl::from_secs(ttl_of(rd)), rd.data())
 }
 
 fn types_of(set: &BTreeSet<Rd>) -> Vec<Rtype> {
@@ -447,7 +540,7 @@ pub fn glue_for(c: &Content, cut: &RelName) -> Vec<StoredRecord> {
 
 /// History B: ZoneBuilder, with names inserted in the given order.
 pub fn build_direct(c: &Content, reverse: bool) -> Zone {
-    let mut b = ZoneBuilder::new(sname("z."), Class::IN);
+    let mut b = ZoneBuilder::new(zone_apex(), Class::IN);
     let mut names: Vec<&RelName> = c.names.keys().collect();
     if reverse {
         names.reverse();
@@ -482,7 +575,7 @@ pub fn build_direct(c: &Content, reverse: bool) -> Zone {
 
 /// History P: records fed one by one to zonetree::parsed::Zonefile.
 pub fn build_parsed(c: &Content) -> Result<Zone, String> {
-    let mut zf = domain::zonetree::parsed::Zonefile::new(sname("z."), Class::IN);
+    let mut zf = domain::zonetree::parsed::Zonefile::new(zone_apex(), Class::IN);
     // SOA first (as in a zone file), then the rest with NS/DS before other data
     let mut recs: Vec<(RelName, Rd)> = c.records().into_iter().collect();
     recs.sort_by_key(|(n, r)| (!matches!(r, Rd::Soa(_)), !matches!(r, Rd::NsOut | Rd::NsIn | Rd::NsBA | Rd::Ds), n.clone(), r.clone()));
@@ -499,7 +592,10 @@ pub fn rt() -> tokio::runtime::Runtime {
 /// Navigate/create the writable node for `name` below an opened apex node.
 pub async fn node_for(apex: &dyn WritableZoneNode, name: &RelName) -> Option<Box<dyn WritableZoneNode>> {
     let mut cur: Option<Box<dyn WritableZoneNode>> = None;
-    for l in name {
+    let sp = fix_opts().owners;
+    for (k, l) in name.iter().enumerate() {
+        // (label k from the apex downwards is label len-1-k from the left of the absolute name)
+        let l = if spelled_upper(sp, name.len() - 1 - k, name.len() + 1) { l.to_ascii_uppercase() } else { l.clone() };
         let label = Label::from_slice(l.as_bytes()).unwrap();
         let next = match &cur {
             None => apex.update_child(label).await.unwrap(),
